@@ -47,8 +47,8 @@ type c17 struct {
 	*wsSess
 	ops      []*c17Op
 	rd       *c17Op
-	wrs      int // application writes (AsyncWrite, AsyncWriteFrame, AsyncFlush, AsyncClose) in flight
-	maxWr    int // how many of them the application keeps in flight at once
+	wrs      int       // application writes (AsyncWrite, AsyncWriteFrame, AsyncFlush, AsyncClose) in flight
+	maxWr    int       // how many of them the application keeps in flight at once
 	sent     []wsFrame // what the peer sent, in order
 	consumed int       // how many of them completed reads have covered
 	appOut   []wsFrame // application frames in submission order
